@@ -63,7 +63,9 @@ def run(ctx):
     for n, s in enumerate(scripts):
         jobs.append(("script", dict(cfg=dict(s["cfg"]), tdts=s["tdts"], simdts=s["simdts"], flog=s["flog"],
                                     probes=[0, 2, 3][n % 3], screening=bool((n // 3) % 2), progress=10 ** 9, fault_shape=n,
-                                    warn_error=(n % 4 == 1))))
+                                    warn_error=(n % 4 == 1),
+                                    # the ordinary way to cancel: pause_on_interrupt (the default) and "no" at the prompt
+                                    pause=(n % 2 == 0))))
     # history: a faulted run followed, in the same process and at the same output path (its files removed with
     # os.remove), by a second run with its own fault: nothing of the first may leak into the second
     hist = [s for s in s1 if s["cfg"]["out"] == "path" and s["cfg"]["skipT"] == 0][: (12 if ctx.quick else 200)]
